@@ -91,7 +91,7 @@ REJECT = [
     ("bare call", 'tonumber(ARGV[1])\nreturn 1'),
 ]
 
-# (golden name, store as Coq term, ARGV bulks, expected reply)
+# (golden name, store as Coq term without the expiry convention, ARGV bulks, expected reply[, expiry_inclusive = true])
 EVAL = [
     ("join", "mkR 0 []", ["BInt 5"], "RInt 12"),
     ("join", "mkR 0 []", ["BInt 1"], "RInt 1"),
@@ -99,6 +99,8 @@ EVAL = [
     ("early", "mkR 0 []", [], "RInt 0"),
     ("early", 'mkR 0 [(BStr "k", mkEntry (BInt 1) None)]', [], "RInt 1"),
     ("early", 'mkR 9 [(BStr "k", mkEntry (BInt 1) (Some 9))]', [], "RInt 0"),
+    ("early", 'mkR 9 [(BStr "k", mkEntry (BInt 1) (Some 9))]', [], "RInt 1", "false"),   # real Redis: gone one ms later
+    ("early", 'mkR 10 [(BStr "k", mkEntry (BInt 1) (Some 9))]', [], "RInt 0", "false"),
     ("andor", "mkR 0 []", ['BStr "a"', 'BStr "b"'], "RNil"),
     ("andor", "mkR 0 []", [], "RNil"),
     ("elseif", "mkR 0 []", ["BInt (-3)"], "RInt 3"),
@@ -141,9 +143,11 @@ def run(coq=False, coqdir=None):
             lines.append("Definition s_%s (KEYS ARGV : list lval) : M lval :=" % name)
             lines.append(body(lua2coq.translate(src, "T")))
         lines.append("Close Scope lua_scope.")
-        for i, (name, st, argv, want) in enumerate(EVAL):
-            lines.append('Example e%d : fst (eval s_%s [BStr "k"] [%s] (%s)) = %s. Proof. vm_compute. reflexivity. Qed.'
-                         % (i, name, "; ".join(argv), st, want))
+        for i, ev in enumerate(EVAL):
+            name, st, argv, want = ev[:4]
+            incl = ev[4] if len(ev) > 4 else "true"
+            lines.append('Example e%d : fst (eval s_%s [BStr "k"] [%s] (%s %s)) = %s. Proof. vm_compute. reflexivity. Qed.'
+                         % (i, name, "; ".join(argv), st, incl, want))
         d = os.path.join(coqdir, "cases")
         os.makedirs(d, exist_ok=True)
         base = os.path.join(d, "lua2coq_selftest_%d" % os.getpid())
